@@ -154,7 +154,7 @@ func VerifC01_AttrKernel() {
 // (lower-case spellings; the tokenizer automaton of the other harnesses does
 // not model raw text, so it is not used here).
 func VerifC01_RawTextParents() {
-	parents := []string{"xmp", "title", "iframe", "noembed", "textarea", "noscript", "noframes"}
+	parents := []string{"xmp", "noscript", "title", "iframe", "textarea", "noembed", "noframes"}
 	k := zzChoice("parent", zzBound("parents", 5, len(parents)))
 	tag := parents[k]
 	form := zzChoice("form", 2)
